@@ -186,6 +186,9 @@ def what(tag, toks, d):
         return "malformed case %s" % d
     cfg, ops = decode(toks)
     at = next((s for k, _, s in ops if k == d[1]), "?")
+    if len(d) > 4 and d[4] == 1:
+        return "%s (cache=%s, BINDING caps per-peer=%s global=%s records=%s; weak monitor: nothing expired/removed returned, |Addrs(p)| <= cap + 2k, GC leaves nothing expired): clause %s fails at op %d: %s" % (
+            cfg["store"], cfg["cache"], cfg["per_peer_cap"], cfg["global_cap"], cfg["record_cap"], CLAUSE.get(d[2]), d[1], at)
     roots = roots_of(d)
     rs = "; ".join("op %d %s [%s; stale_entry=%d lapsed_record=%d record_suffix=%d result=%d]" % (r[0], OPN.get(r[1], r[1]), reason_of(d[3], r), r[2], r[3], r[4], r[5]) for r in roots[:4])
     return "%s (cache=%s lookahead=%s): clause %s fails at op %d: %s; roots: %s" % (
